@@ -23,6 +23,23 @@ use proptest::{
 use serde::{de::DeserializeOwned, Serialize};
 use serde_json::{json, Value};
 
+thread_local! {
+    /// (location, message) of the last panic on this thread (set by the panic hook in main)
+    pub static LAST_PANIC: std::cell::RefCell<Option<(String, String)>> =
+        const { std::cell::RefCell::new(None) };
+}
+
+/// Run `f`, turning a panic into `Err((location, message))`.
+pub fn catch<T>(f: impl FnOnce() -> T) -> Result<T, (String, String)> {
+    LAST_PANIC.with(|p| *p.borrow_mut() = None);
+    match std::panic::catch_unwind(std::panic::AssertUnwindSafe(f)) {
+        Ok(v) => Ok(v),
+        Err(_) => Err(LAST_PANIC
+            .with(|p| p.borrow_mut().take())
+            .unwrap_or_else(|| ("?".into(), "?".into()))),
+    }
+}
+
 #[derive(Debug, Clone, Copy, PartialEq, Eq)]
 pub enum Tier {
     Quick,
